@@ -477,3 +477,24 @@ func handoverStraddleDocs(nd bool, leads []int) [][]byte {
 	}
 	return out
 }
+
+// overfullLastBufferDocs: maximally dense documents above 8 KiB whose LAST index buffer holds
+// more than 1408+64 entries: a string first, so that the dense run's index count is not a
+// multiple of 64 at the block boundaries — the fill limit is then overshot by up to 63, and
+// with at most 64 bytes of input left the padded tail call adds its indexes to the same
+// buffer (up to 1535).  Found by running stage 1 alone over one period of alignments.
+func overfullLastBufferDocs() [][]byte {
+	var out [][]byte
+	for _, pad := range []int{1, 7, 20, 33, 50, 62} {
+		got := 0
+		for n := 0; n < 760 && got < 7; n++ {
+			doc := []byte(`["` + strings.Repeat("a", 8200+pad) + `",` + strings.Repeat("1,", 700+n) + "1]")
+			bufs, _ := simdjson.VerifStage1(append([]byte{}, doc...), false)
+			if len(bufs) > 0 && len(bufs[len(bufs)-1]) > 1408+64+(got%2)*30 {
+				out = append(out, doc)
+				got++
+			}
+		}
+	}
+	return out
+}
